@@ -615,6 +615,8 @@ Input(s, e) ==      \* an environment input, delivered as an I/O callback
          [s0 EXCEPT !.eg.values = [ev \in {e.vals[i][1] : i \in DOMAIN e.vals} |-> e.vals[CHOOSE i \in DOMAIN e.vals : e.vals[i][1] = ev][2]],
                     !.eg.events = [i \in DOMAIN e.vals |-> e.vals[i][1]]]
     [] e.op = "eg_notify" -> EgNotify(s0, e.evs, "oneshot" \in DOMAIN e /\ e.oneshot)
+    \* the application queues one of the calls above with loop.call_soon: it runs among the library's own callbacks of the next iteration
+    [] e.op = "defer"       -> CallSoon(s0, [kind |-> "appcall", e |-> e.e])
     \* a bare TimedStore driven through its public methods (C09)
     [] e.op = "ts_refresh"  -> IF "nak" \in DOMAIN e /\ e.nak /\ ~Has(s0, "ts", e.a, e.key) THEN s0      \* callback_new refuses: no trace
                                ELSE TSRefresh(s0, "ts", e.a, e.key, e.ttl)
@@ -625,6 +627,7 @@ Input(s, e) ==      \* an environment input, delivered as an I/O callback
 
 Effect(s, c) ==
   CASE c.kind = "input"          -> Input(s, c.e)
+    [] c.kind = "appcall"        -> Input(s, c.e)
     [] c.kind = "handle_offer"   -> HandleOffer(s, c.a, c.en)
     [] c.kind = "expired"        -> TSExpired(s, c.store, c.a, c.key)
     [] c.kind = "notify_gone"    -> TSGone(s, c.store, c.a, c.key)
